@@ -80,12 +80,12 @@ CHECKS['C05'] = dict(
          'built with the guarded hook LIBMODULE_VERIF_MAP_SIZE=8 (8-slot table: forced collisions, shared home slots, clusters wrapping the table end, two growth steps) '
          'and once more at the default table size; dedup key = observed iteration order (layout) + growth history + iterator state + last k ops; '
          'after every op: len/get/contains of every key, callback iteration visits each live key once, destructor log, allocator ledger (one key copy per live entry); 5 probe suffixes',
-    bounds=dict(quick='8-slot table: 7 keys, <=7 live, 6 flag sets x {dtor,no dtor}, BFS depth 6 (k=1), stateless depth 3; default table: depth 5',
+    bounds=dict(quick='8-slot table: 10 keys, <=8 live, 6 flag sets x {dtor,no dtor}, BFS depth 6 (k=1), stateless depth 3; default table: depth 5',
                 thorough='8-slot table: 10 keys, <=8 live, BFS depth 9 (k=2), stateless depth 4; default table: depth 7'),
     assumptions=['map not mutated from outside while an iterator is live; iterate callbacks only remove the current entry',
                  'AUTOFREE without DUP: ownership of the key passed to a put that hits an existing key is unspecified (either outcome accepted)'],
     parts=[seqx_part('tiny', 'c05_map', ['structs', 'utils'], lib_defines=['LIBMODULE_VERIF_MAP_SIZE=8'], cflags=['-DLIBMODULE_VERIF_MAP_SIZE=8'],
-                     quick=_c05_runs(7, 7, 6, 3, 1, 150, (0, 1, 2, 4, 5, 6), (1, 0)),
+                     quick=_c05_runs(10, 8, 6, 3, 1, 150, (0, 1, 2, 4, 5, 6), (1, 0)),
                      thorough=_c05_runs(10, 8, 9, 4, 2, 1500, (0, 1, 2, 4, 5, 6), (1, 0))),
            seqx_part('default', 'c05_map', ['structs', 'utils'],
                      quick=_c05_runs(5, 5, 5, 0, 1, 100, (0, 5), (1,)),
@@ -199,7 +199,7 @@ for _p, (_q, _t) in _WORLD.items():
                                   thorough='modules=%d deviations<=%d depth=%d k=2' % _t + ''.join('; modules=%d deviations<=%d depth=%d' % x for x in _xt)),
                       assumptions=['single thread, one context', 'real kernel pipes/epoll, virtual time through the link-time shim', 'handles passed are live references owned by the caller'],
                       parts=[world_part('w', quick=[_w(_p, _q[0], _q[1], _q[2], 250, _WORLD_K.get(_p, 1))] + [_w(_p, x[0], x[1], x[2], 200) for x in _xq],
-                                        thorough=[_w(_p, _t[0], _t[1], _t[2], 2400, 2)] + [_w(_p, x[0], x[1], x[2], 1200, 2) for x in _xt])])
+                                        thorough=[_w(_p, _t[0], _t[1], _t[2], 1200, 2)] + [_w(_p, x[0], x[1], x[2], 600, 2) for x in _xt])])
 
 
 def _c14_runs(threads, prog, budget, dl, foreign=0, workers=8):
